@@ -398,6 +398,9 @@ def rules(prop, repo):
         perr = list(dom.errors)
         tables = []
         for v, frx in rs:
+            if isinstance(v, Adt) and v.name == roles.prepared_ty and isinstance(v.fields[0], Tup) and v.fields[0].items and all(isinstance(x, Line) for x in v.fields[0].items):
+                # the coefficients in a fixed-size array filled through a write cursor: the same list, every slot written
+                v = Adt(v.name, v.variant, [Vec(v.fields[0].items)] + list(v.fields[1:]))
             if isinstance(v, Adt) and v.name == roles.prepared_ty and isinstance(v.fields[0], Vec):
                 tables.append((v, bool(frx.env.get("__idQ"))))
             else:
